@@ -40,6 +40,8 @@ SPEC = {
 
 def run(ctx: Ctx):
     r16_1(ctx)
+    r16_1b(ctx)
+    r16_4(ctx)
     r16_2(ctx)
     r16_3(ctx)
 
@@ -97,6 +99,68 @@ def _block_of(st, pm):
 
 
 # ---------------------------------------------------------------------------
+def reorder_sites(fn: ast.AST):
+    """calls that change the position of an existing key of `self` (an ordered mapping): move_to_end / popitem / pop"""
+    return [c_ for c_ in ast.walk(fn) if isinstance(c_, ast.Call) and isinstance(c_.func, ast.Attribute)
+            and c_.func.attr in ("move_to_end", "popitem", "pop") and norm(c_.func.value) == "self"]
+
+
+def r16_1b(ctx: Ctx, rule="R16.1"):
+    """Sections keep the order of their first appearance: while the file is read no existing key is moved."""
+    init = ctx.func("ItpFile.__init__")
+    hits = reorder_sites(init.node)
+    for c_ in hits:
+        ctx.ob(rule, init, c_, False, "sections are listed (and written) in the order of their first appearance -- `%s` moves a "
+               "section that exists already" % norm(c_)[:60], node=c_)
+    if not hits:
+        ctx.ob(rule, init, "key-moving operations while reading: 0", True, "no existing section is moved while the file is read", node=init.node)
+    from ..fixtures import check_fixture
+    check_fixture(ctx, rule, "reorder.py", lambda repo: sum(len(reorder_sites(f_.node)) for f_ in repo.funcs.values()), expect_exact=2)
+
+
+def r16_4(ctx: Ctx, rule="R16.4"):
+    """The parser and the writer agree on what a preprocessor line is: the test that files a line as ('', line) when
+    it starts with '#' and the test that writes a content-less line back verbatim are the same test on the same text
+    (the raw line / the raw stored comment).  If one side strips blanks first and the other does not, an indented
+    directive or a comment whose text begins with '#' is classified one way on read and the other way on write."""
+    parse = ctx.func("ItpLine.parse_itp_line")
+    line = ctx.func("ItpLine.line@get")
+    lp = [p_ for p_ in parse.params if p_ not in ("cls", "self")][0]
+
+    def hash_tests(fn):
+        out = []
+        for c_ in ast.walk(fn):
+            if isinstance(c_, ast.Call) and isinstance(c_.func, ast.Attribute) and c_.func.attr == "startswith" and c_.args \
+                    and isinstance(c_.args[0], ast.Constant) and c_.args[0].value == "#":
+                out.append(c_.func.value)
+        return out
+    from ..pat import expand_single_defs as _xsd16
+    tp = [_xsd16(parse.node, e_, aliases_only=True) for e_ in hash_tests(parse.node)]
+    tl = [_xsd16(line.node, e_, aliases_only=True) for e_ in hash_tests(line.node)]
+    if not tp or not tl:
+        ctx.ob(rule, parse, "preprocessor tests", True, "no `startswith('#')` test on one of the two sides; agreement not decided on this tree",
+               undecided=True, node=parse.node)
+        return
+    # stripped views of the stored fields
+    stripped_props = set()
+    for nm, g in (line.cls.getters.items() if line.cls else []):
+        for n in ast.walk(g.node):
+            if isinstance(n, ast.Return) and isinstance(n.value, ast.Call) and call_name(n.value) in ("strip", "lstrip", "rstrip"):
+                stripped_props.add("self." + nm)
+
+    def is_raw(e, raw_names):
+        if isinstance(e, ast.Call) and call_name(e) in ("strip", "lstrip", "rstrip"):
+            return False
+        return norm(e) in raw_names and norm(e) not in stripped_props
+    raw_p = all(is_raw(e, {lp}) for e in tp)
+    raw_l = all(is_raw(e, {norm(e)}) and norm(e).startswith("self._") for e in tl)
+    ctx.ob(rule, parse, "read: %s.startswith('#') ; write: %s.startswith('#')" % ([norm(e) for e in tp], [norm(e) for e in tl]),
+           raw_p and raw_l,
+           "both sides test the raw text" + ("" if raw_p and raw_l else " -- one side strips blanks before the test and the other does not: "
+           "an indented directive, or a comment whose text begins with '#', is read as one kind of line and written as the other"),
+           node=parse.node)
+
+
 def r16_2b(ctx: Ctx, rule="R16.2"):
     """Routing of the reader loop: every line that is not a section header is appended, unchanged, to the header list
     (before the first section) or to the current section (afterwards)."""
